@@ -32,7 +32,7 @@ ASSUMPTIONS = [
     "templates are identified by a tag in their text, not by Template.uri (which keeps the joined spelling)",
 ]
 MIN_NONTRIVIAL = 200
-REQUIRED_COUNTERS = ["sets_rendered", "relative_cross_directory_resolutions", "unresolvable_matched", "include_args_checked", "import_beats_context", "inline_def_precedence", "inheritable_via_self", "module_namespace_calls"]
+REQUIRED_COUNTERS = ["sets_rendered", "relative_cross_directory_resolutions", "unresolvable_matched", "include_args_checked", "import_beats_context", "inline_def_precedence", "inheritable_via_self", "module_namespace_calls", "sibling_namespace_renders", "namespace_api_resolutions"]
 
 _st = {}
 
@@ -470,7 +470,115 @@ def run_set(files, backing, res, rc, ctx_pa=None):
         shutil.rmtree(base, ignore_errors=True)
 
 
+SIBLINGS = [("/a-b.html", "/a_b.html", "/a.b.html"), ("/s/x-1.html", "/s/x_1.html", "/s/x 1.html"), ("/sub/x.html", "/sub_x.html", "/sub.x.html")]
+
+
+def run_directed(res):
+    """directed scenarios (each one small, all combinations enumerated)"""
+    L = _st["TemplateLookup"]
+    ex = _st["exceptions"]
+
+    def render(lk, uri, **kw):
+        try:
+            return "".join(lk.get_template(uri).render_unicode(**kw).split())
+        except ex.TemplateLookupException:
+            return "TemplateLookupException"
+        except Exception as e:
+            return "%s: %s" % (type(e).__name__, e)
+
+    # (A) templates whose URIs differ only in punctuation each declare a namespace of the SAME name for a different
+    # file (plain, with an inline def, with import=); all of them are included into one render and referenced as
+    # namespaces of one another: every one must reach its own library
+    for group in SIBLINGS:
+        for style in ("plain", "inline", "import", "module"):
+            for order in (group, tuple(reversed(group))):
+                lk = L()
+                exp = []
+                for i, uri in enumerate(group):
+                    lk.put_string("/lib%d.html" % i, '<%%def name="f()">LIB%d</%%def><%%def name="g()">G%d</%%def>' % (i, i))
+                    if style == "plain":
+                        t = '<%%namespace name="ns" file="/lib%d.html"/>[%d:${ns.f()}]' % (i, i)
+                        e = "[%d:LIB%d]" % (i, i)
+                    elif style == "inline":
+                        t = '<%%namespace name="ns" file="/lib%d.html"><%%def name="g()">INL%d</%%def></%%namespace>[%d:${ns.f()}${ns.g()}]' % (i, i, i)
+                        e = "[%d:LIB%dINL%d]" % (i, i, i)
+                    elif style == "import":
+                        t = '<%%namespace file="/lib%d.html" import="f"/>[%d:${f()}]' % (i, i)
+                        e = "[%d:LIB%d]" % (i, i)
+                    else:
+                        t = '<%%namespace name="ns" module="verif_c07_mod"/><%%namespace name="n2" file="/lib%d.html"/>[%d:${ns.mf("m")}${n2.f()}]' % (i, i)
+                        e = "[%d:MODFN[m|cv=CV]LIB%d]" % (i, i)
+                    lk.put_string(uri, t + '<%def name="me()">' + e + "</%def>")
+                    exp.append((uri, e))
+                lk.put_string("/main.html", "".join('<%%include file="%s"/>' % u for u in order)
+                              + "".join('<%%namespace name="m%d" file="%s"/>' % (k, u) for k, u in enumerate(order))
+                              + "".join("${m%d.me()}" % k for k in range(len(order))))
+                d = dict(exp)
+                want = "".join(d[u] for u in order) * 2
+                got = render(lk, "/main.html", cv="CV")
+                res.evaluations += 1
+                res.count("sibling_namespace_renders")
+                if got != "".join(want.split()):
+                    res.violate("namespace-of-sibling-uri", "templates %r each declare their own namespace (%s) and are included, in the order %r, into one "
+                                "render: output %r, expected %r" % (group, style, order, got, want))
+                res.nontrivial("sib", group, style, order)
+
+    # (B) the Namespace API of a FILE namespace declared in a deeper template: get_namespace / get_template /
+    # include_file with a relative URI resolve against the namespace's own template (documented on
+    # Namespace.get_namespace: "relative to the uri of the namespace itself"), not against the declaring template
+    for decl in ("/lib.html", "../../lib.html", "../d2/../../lib.html"):
+        for how in ("tag", "local-api", "chained"):
+            _st["n"] += 1
+            root = os.path.join(_st["tmp"], "d%d" % _st["n"])
+            lk = L(directories=[root])
+
+            class _W:
+                @staticmethod
+                def put_string(uri, text):
+                    fp = os.path.join(root, uri.lstrip("/"))
+                    os.makedirs(os.path.dirname(fp), exist_ok=True)
+                    with open(fp, "w") as fh:
+                        fh.write(text)
+
+            put = _W.put_string
+            put("/lib.html", '<%def name="tag()">LIB</%def>')
+            put("/x.html", 'X@root<%def name="tag()">XROOT</%def>')
+            put("/d1/d2/x.html", 'X@deep<%def name="tag()">XDEEP</%def>')
+            put("/d1/x.html", 'X@d1<%def name="tag()">XD1</%def>')
+            if how == "tag":
+                head, ns = '<%%namespace name="ns" file="%s"/>' % decl, "ns"
+            elif how == "local-api":
+                head, ns = "", "local.get_namespace('%s')" % decl
+            else:
+                head, ns = '<%namespace name="l2" file="x.html"/>', "l2.get_namespace('%s')" % {"/lib.html": "/lib.html", "../../lib.html": "../../lib.html", "../d2/../../lib.html": "../d2/../../lib.html"}[decl]
+            body = ("[%s.get_namespace('x.html').tag()=${%s.get_namespace('x.html').tag()}]" % (ns, ns)
+                    + "[tpl=${%s.get_template('x.html').get_def('tag').render()}]" % ns
+                    + "[inc=<%% %s.include_file('x.html') %%>]" % ns
+                    + "[own=${local.get_namespace('x.html').tag()}]")
+            put("/d1/d2/page.html", head + body)
+            want = "[%s.get_namespace('x.html').tag()=XROOT][tpl=XROOT][inc=X@root][own=XDEEP]" % ns
+            if how == "chained" and not decl.startswith("/"):
+                # l2 is /d1/d2/x.html, the relative declaration resolves from there just the same
+                pass
+            got = render(lk, "/d1/d2/page.html")
+            res.evaluations += 1
+            res.count("namespace_api_resolutions")
+            if got != "".join(want.split()):
+                res.violate("namespace-api-base-uri", "/d1/d2/page.html reaches /lib.html as %s (%s) and calls its API with 'x.html' (present at /, /d1/ and /d1/d2/): "
+                            "output %r, expected %r" % (ns, how, got, want))
+            # a relative URI that leaves the root when resolved against the namespace's template is unresolvable
+            put("/d1/d2/up.html", head + "${%s.get_namespace('../x.html').tag()}" % ns)
+            got = render(lk, "/d1/d2/up.html")
+            res.count("namespace_api_resolutions")
+            if got != "TemplateLookupException":
+                res.violate("namespace-api-base-uri", "/d1/d2/up.html: %s.get_namespace('../x.html') where the namespace is /lib.html must be unresolvable "
+                            "(/../x.html); got %r" % (ns, got))
+            res.nontrivial("api", decl, how)
+            shutil.rmtree(root, ignore_errors=True)
+
+
 def gen_cases(tier, seed):
+    yield {"kind": "directed"}
     n = 6000 if tier == "quick" else 40000
     per = 40
     for i in range(n // per):
@@ -486,6 +594,8 @@ def run_case(case):
             files = gen_set(r, dots_ok=(backing != "put_string"))
             ctx_pa = "ctxpa" if r.random() < 0.5 else None
             run_set(files, backing, res, {"kind": "set", "files": files, "backing": backing, "ctx_pa": ctx_pa}, ctx_pa)
+    elif case["kind"] == "directed":
+        run_directed(res)
     elif case["kind"] == "set":
         files = case["files"]
         run_set(files, case["backing"], res, case, case.get("ctx_pa"))
